@@ -33,6 +33,26 @@ non-trivial = the IRI contains a dot/empty/encoded segment or an absolute remain
         coq_str(ns1), c_path(&comps(&d1)), coq_str(ns2), c_path(&comps(&d2)), coq_str(ns2), c_path(&comps(&d2)), coq_str(ns1), c_path(&comps(&d1)));
     let loader_a = LocalLoader::new(vec![(Iri::new_unchecked(ns1.into()), d1.clone()), (Iri::new_unchecked(ns2.into()), d2.clone())]).unwrap();
     let loader_b = LocalLoader::new(vec![(Iri::new_unchecked(ns2.into()), d2.clone()), (Iri::new_unchecked(ns1.into()), d1.clone())]).unwrap();
+    // configuration through `add`: the mappings of loader A registered one by one (the enclosing namespace first),
+    // interleaved with adds that must be REFUSED (namespace without final slash, relative directory, a file) and must
+    // leave nothing behind; the Coq model of this loader is cfgA
+    let mut loader_c = LocalLoader::new(vec![]).unwrap();
+    let mut add_failures: Vec<String> = vec![];
+    {
+        let mut refused = |l: &mut LocalLoader, ns: &str, dir: PathBuf, why: &str| { if l.add(Iri::new_unchecked(ns.to_string().into()), dir.clone()).is_ok() { add_failures.push(format!("LocalLoader::add({ns:?}, {dir:?}) was accepted although {why}")); } };
+        refused(&mut loader_c, "http://e/outside", root.join("outside"), "the namespace does not end with a slash");
+        loader_c.add(Iri::new_unchecked(ns1.into()), d1.clone()).unwrap();
+        refused(&mut loader_c, "http://e/rel/", PathBuf::from("fsroot-relative"), "the directory is relative");
+        refused(&mut loader_c, "http://e/file/", root.join("secret"), "the path is a file, not a directory");
+        refused(&mut loader_c, "http://e/missing/", root.join("no-such-dir"), "the directory does not exist");
+        loader_c.add(Iri::new_unchecked(ns2.into()), d2.clone()).unwrap();
+        refused(&mut loader_c, "http://e/ns/sub", root.join("r1x"), "the namespace does not end with a slash");
+    }
+    // a mapped directory written with a `..` that follows a symbolic link: <root>/link -> real/sub, so that
+    // <root>/link/../r3 IS <root>/real/r3 (and not <root>/r3, which holds a canary)
+    mk("real/sub/x.ttl", false); mk("real/r3/a.ttl", false); mk("real/r3/b", false); mk("r3/a.ttl", true); mk("r3/b", true);
+    let _ = std::os::unix::fs::symlink(root.join("real/sub"), root.join("link"));
+    let loader_d = LocalLoader::new(vec![(Iri::new_unchecked("http://e/ln/".into()), root.join("link/../r3"))]);
     let canary_abs = root.join("secret").display().to_string();
     let segs: Vec<String> = ["a", "b", "d", "c.rdf", "c", "e", "..", ".", "", "%2e%2e", "%2E%2E", "%2e", "...", ".hidden", "sub", "inner", "g", "g.ttl", "secret", "outside", "a.ttl", "b.nt", "f", "r1", "r2", "r1x", "..%2f", "%2f"].iter().map(|s| s.to_string()).collect();
     let base = Rng::new(a.seed);
@@ -41,7 +61,7 @@ non-trivial = the IRI contains a dot/empty/encoded segment or an absolute remain
     for idx in range {
         let mut r = base.fork(idx as u64);
         let use_b = r.chance(1, 2);
-        let prefix = *r.pick(&[ns1, ns1, ns1, ns2, "http://e/ns", "http://e/", "http://other/ns/", "http://e/ns/sub"]);
+        let prefix = *r.pick(&[ns1, ns1, ns1, ns1, ns1, ns1, ns2, ns2, "http://e/ns", "http://e/", "http://other/ns/", "http://e/ns/sub", "http://e/outside", "http://e/rel/", "http://e/file/", "http://e/missing/"]);
         let n = r.below(6);
         let mut path: Vec<String> = (0..n).map(|_| r.pick(&segs).clone()).collect();
         let abs_attack = r.chance(1, 10);
@@ -65,7 +85,8 @@ non-trivial = the IRI contains a dot/empty/encoded segment or an absolute remain
         if r.chance(1, 8) { iri.push_str("?q=1"); }
         if r.chance(1, 4) { iri.push_str("#frag/../x"); }
         let Ok(iri_v) = Iri::new(iri.clone()) else { continue };
-        let loader = if use_b { &loader_b } else { &loader_a };
+        let use_c = !use_b && r.chance(1, 2);
+        let loader = if use_b { &loader_b } else if use_c { &loader_c } else { &loader_a };
         let res = loader.get(iri_v);
         let (code, pth, ct, desc): (u64, Vec<String>, u64, String) = match &res {
             Ok((data, ctype)) => {
@@ -83,9 +104,9 @@ non-trivial = the IRI contains a dot/empty/encoded segment or an absolute remain
             let s = String::from_utf8_lossy(data).to_string();
             let no_frag = iri.split('#').next().unwrap();
             let ok = !s.starts_with("CANARY:") && [(ns1, &d1), (ns2, &d2)].iter().any(|(ns, d)| no_frag.starts_with(ns) && Path::new(&s).starts_with(d));
-            if !ok { sum.oracle_failures.push((idx.to_string(), format!("LocalLoader.get({iri:?}) with mappings {} returned the content of {s}, which is outside every directory mapped to a namespace prefixing the IRI", if use_b { "[sub->r2, ns->r1]" } else { "[ns->r1, sub->r2]" }))); }
+            if !ok { sum.oracle_failures.push((idx.to_string(), format!("LocalLoader.get({iri:?}) with mappings {} returned the content of {s}, which is outside every directory mapped to a namespace prefixing the IRI", if use_b { "[sub->r2, ns->r1]" } else if use_c { "[ns->r1, sub->r2] (registered with add(), refused adds in between)" } else { "[ns->r1, sub->r2]" }))); }
         }
-        let text = format!("cfg={} iri={iri}", if use_b { "B" } else { "A" });
+        let text = format!("cfg={} iri={iri}", if use_b { "B" } else if use_c { "A(add)" } else { "A" });
         if a.only.is_some() { println!("CASE {idx}: {text} => {desc}"); }
         let nontrivial = iri.contains("..") || iri.contains("/./") || iri.contains("//e") == false && iri[7..].contains("//") || iri.contains("%2") || abs_attack || (code == 0 && !iri.split('#').next().unwrap().ends_with(pth.last().map(|s| s.as_str()).unwrap_or("")));
         if seen.insert(text.clone()) && nontrivial { sum.distinct_nontrivial += 1; }
@@ -94,6 +115,16 @@ non-trivial = the IRI contains a dot/empty/encoded segment or an absolute remain
         if sum.samples.len() < 5 && nontrivial && (code == 0 || sum.samples.len() < 2) { sum.samples.push(format!("case {idx}: {text} => {desc}")); }
         sum.evaluations += 1;
         if !long { cases.push((idx, format!("get_ok the_fs Consts.loader_exts {} {} {code} {} {ct}", if use_b { "cfgB" } else { "cfgA" }, coq_str(&iri), c_path(&pth)))); }
+    }
+    for f in add_failures { sum.oracle_failures.push(("config-add".into(), f)); }
+    match &loader_d {
+        Err(e) => sum.oracle_failures.push(("config-symlink".into(), format!("LocalLoader::new refused the directory <root>/link/../r3 (which exists: link -> real/sub): {e:?}"))),
+        Ok(l) => for (req, want) in [("http://e/ln/a.ttl", Some("real/r3/a.ttl")), ("http://e/ln/b", Some("real/r3/b")), ("http://e/ln/x.ttl", None), ("http://e/ln/sub/x.ttl", None)] {
+            let got = l.get(Iri::new_unchecked(req.to_string())).ok().map(|(d, _)| String::from_utf8_lossy(&d).to_string());
+            let want_s = want.map(|w| root.join(w).display().to_string());
+            sum.evaluations += 1; sum.bump("config:directory-with-dotdot-after-symlink");
+            if got != want_s { sum.oracle_failures.push(("config-symlink".into(), format!("mapping http://e/ln/ -> <root>/link/../r3 with link -> real/sub (so the directory is <root>/real/r3): get({req:?}) returned {got:?}, expected {want_s:?}"))); }
+        }
     }
     if a.only.is_none() {
         sum.shards = write_shards(&a.out, &header, &cases, a.shards);
